@@ -2,7 +2,7 @@
     Only the property theorems: each is closed by [exact] of a lemma (Proofs16*.v, Gen/GenSerializeObl.v) and followed
     by [Print Assumptions].  Models: Model16.v; per-class action lists: Gen/GenSerialize.v (regenerated from /repo). *)
 From XV Require Import Base.XDefs C16.Model16 C16.Spec16 C16.Proofs16a C16.Proofs16b C16.Proofs16c C16.ModelObj16 C16.Proofs16d C16.Containers16 C16.Helpers16
-  Gen.GenSerialize Gen.GenSerializeObl.
+  Gen.GenSerialize Gen.GenSerializeObl C16.ModelFields16 C16.Fields16 C16.Proofs16e C16.Proofs16f Gen.GenSerFields Gen.GenSerFieldsObl.
 Local Open Scope nat_scope.
 
 (** XSerializeEngine is a faithful typed byte channel (repaired read(), see F26): for every buffer size >= 8 and
@@ -110,6 +110,27 @@ Theorem T16_helper_decisions : inserts_ok pinned_helper_conds ser_helper_conds =
 Proof. exact T16_helper_conds. Qed.
 Print Assumptions T16_helper_decisions.
 
+(** FIELD COVERAGE (regenerated from the headers and the serialize() bodies of /repo on every run, one obligation per
+    class in Gen/GenSerFieldsObl.v): every non-static data member declared in the header of a serialisable class occurs
+    in the store direction AND in the load direction of that class's serialize(), or is listed with its reason in the
+    reviewed table Fields16.v (derived / cache / scratch members), or is one of the members of the defect list
+    known_field_gaps (finding F62: XMLDateTime::fMilliSecond, fHasTime - the check replays the witness while
+    Gen reports the gap open).  A member added to a header, or dropped from both branches of serialize() (which
+    T16_symmetric cannot see), breaks the obligation of its class.  "Occurs" is by identifier in the statements of the
+    direction (trusted reading of the translator); the table is precise (no stale entries). *)
+Theorem T16_fields_covered : forall c f, In c ser_fields -> In f (snd c) ->
+  (fm_store f = true /\ fm_load f = true) \/ listed (transient_fields ++ known_field_gaps) (fst c) (fm_name f) = true.
+Proof. exact (fields_all_spec (transient_fields ++ known_field_gaps) ser_fields T16_fields_all). Qed.
+Print Assumptions T16_fields_covered.
+Theorem T16_fields_table_is_precise : transient_precise transient_fields ser_fields = true.
+Proof. exact T16_fields_table_precise. Qed.
+Print Assumptions T16_fields_table_is_precise.
+(** enum-typed members travel as a 4-byte integer and are cast back to their declared enum type (so that, with
+    T16_engine_roundtrip, the loaded value is the stored enumerator) *)
+Theorem T16_enum_fields : forallb (fun e => snd e) ser_enum_fields = true.
+Proof. exact T16_enum_fields_all. Qed.
+Print Assumptions T16_enum_fields.
+
 (** deserializeGrammars compares the level stamp before anything else is read *)
 Theorem T16_level : forall bs level stream r0 stamp r1 stale qs, 8 <= bs ->
   r_init bs stream = Ok r0 -> r_prim bs 4 true r0 = Ok (stamp, r1) -> stamp <> level ->
@@ -125,7 +146,36 @@ Theorem T16_level_foreign_pool : forall bs stamp locked body qs, 8 <= bs -> (sta
 Proof. intros bs stamp locked body qs H. exact (level_mismatch_stored bs H ser_level stamp locked body qs). Qed.
 Print Assumptions T16_level_foreign_pool.
 
+(** TRUNCATED STREAMS.  For every buffer size, every sequence of read requests, every stream and every cut point: the
+    loading engine run on the first n bytes of the stream either stops with XSer_InStream_Read_LT_Req (fillBuffer obtained
+    fewer than fBufSize bytes) or returns exactly the items it returns on the whole stream (the cut fell into bytes no
+    request reads, e.g. nothing was cut) - it never returns different items.  (An error other than Read_LT is one the
+    whole stream produces as well.)  Holds for the code as found and as repaired (any [stale]). *)
+Theorem T16_truncated_rejects : forall stale bs qs stream n,
+  match r_all stale bs qs (firstn n stream) with
+  | Ok (ops, _) => exists r', r_all stale bs qs stream = Ok (ops, r')
+  | Err e => e = E_ReadLT \/ r_all stale bs qs stream = Err e
+  end.
+Proof. exact truncated_rejects. Qed.
+Print Assumptions T16_truncated_rejects.
+(** the same through deserializeGrammars' header: a truncated pool stream is rejected (Read_LT, or the level mismatch of
+    the whole stream) or loads exactly the items of the whole stream *)
+Theorem T16_pool_truncated_rejects : forall stale bs level qs stream n,
+  match pool_load stale bs level qs (firstn n stream) with
+  | Ok (lk, ops, _) => exists r', pool_load stale bs level qs stream = Ok (lk, ops, r')
+  | Err e => e = E_ReadLT \/ pool_load stale bs level qs stream = Err e
+  end.
+Proof. exact pool_truncated_rejects. Qed.
+Print Assumptions T16_pool_truncated_rejects.
+
 (** non-vacuity *)
+Example T16_nonvacuous_truncated :   (* cut inside the second buffer: rejected; cut = whole length: read *)
+  let ops := [OPrim K1 1; OStr (Some [0x41; 0x42; 0x43; 0x44; 0x45; 0x46; 0x47; 0x48; 0x49]); OPrim K4 9]%N in
+  (exists s, w_all 8 ops = Ok s /\ length s = 40 /\
+     r_all false 8 (map rq_of ops) (firstn 39 s) = Err E_ReadLT /\ r_all false 8 (map rq_of ops) (firstn 9 s) = Err E_ReadLT /\
+     r_all false 8 (map rq_of ops) (firstn 0 s) = Err E_ReadLT /\
+     exists r, r_all false 8 (map rq_of ops) (firstn 40 s) = Ok (ops, r)).
+Proof. cbv zeta. eexists. split; [vm_compute; reflexivity|]. repeat split; try (vm_compute; reflexivity). eexists. vm_compute. reflexivity. Qed.
 Example T16_nonvacuous_ops :
   Forall op_ok [OPrim K4 7; OStr (Some [0x41; 0x20AC]); OStr None; ORaw [1; 2; 3]; OPrim KS 5; OPrim K8 0xFFFFFFFFFFFFFFFF;
                 OStrB (Some (16, [0x41; 0xD800])); OStrB None; OStr8 (Some [0x51; 0x4E]); OPrim K2 0xFFFF; OPrim K1 1]%N.
@@ -163,4 +213,9 @@ Example T16_nonvacuous_helper :   (* a store path nobody reads; a changed decisi
   helper_ok (1, [[APrim W4; AStr false]; [APrim W4; APrim W4; AObj 2]], [[APrim W4; AStr false]; [APrim W4]]) = false /\
   helper_ok (1, [[APrim W4; AStr false]; [APrim W4]], [[APrim W4; AStr false]; [APrim W4]; [APrim W4; APrim W4]]) = true /\
   inserts_ok [(7, [[1; 2]; [3]])]%N [(7, [[1; 9]; [3]])]%N = false.
+Proof. vm_compute. repeat split; reflexivity. Qed.
+Example T16_nonvacuous_fields :   (* a member dropped from both branches / a new header member is detected; a listed one is not *)
+  fields_ok [(7, 30)]%N (7%N, [(10%N, true, true); (20%N, false, false); (30%N, false, true)]) = false /\
+  fields_ok [(7, 30); (0, 20)]%N (7%N, [(10%N, true, true); (20%N, false, false); (30%N, false, true)]) = true /\
+  transient_precise [(7, 10)]%N [(7%N, [(10%N, true, true)])] = false /\ length ser_fields = length ser_classes.
 Proof. vm_compute. repeat split; reflexivity. Qed.
